@@ -1862,6 +1862,338 @@ example : ((run {} [.on 0 (.set 1), .on 1 (.set 1), .on 0 .remove, .on 2 .regist
       .on 1 .remove, .on 0 (.set 2), .on 0 (.reap 0), .on 1 .timer, .on 1 (.reap 0), .close]).at_ 2).slot = .requested := by
   decide
 
+
+/-! ### the whole store refines "a map plus a set of pending removals" -/
+
+/-- the abstract store: what every tree id maps to, the set of ids whose removal is pending, the closing flag -/
+structure Abs where
+  trees : Nat → Slot
+  pending : Nat → Bool
+  closed : Bool
+
+/-- the operations of the abstract store; `expire id` is the only one that takes a tree away -/
+inductive AOp where
+  | skip
+  | register (id : Nat) | unregister (id : Nat)
+  | refresh (id : Nat)
+  | set (id c : Nat)
+  | remove (id : Nat)
+  | expire (id : Nat)
+  | close
+  deriving DecidableEq, Repr
+
+def updF {α : Type} (f : Nat → α) (i : Nat) (x : α) : Nat → α := fun j => if j = i then x else f j
+
+def astep (a : Abs) : AOp → Abs
+  | .skip => a
+  | .register id => { a with trees := updF a.trees id (match a.trees id with | .absent => .requested | x => x) }
+  | .unregister id => { a with trees := updF a.trees id (match a.trees id with | .requested => .absent | x => x) }
+  | .refresh id => { a with pending := updF a.pending id false }
+  | .set id c => { a with trees := updF a.trees id (.present c), pending := updF a.pending id false }
+  | .remove id => if a.closed then a else { a with pending := updF a.pending id true }
+  | .expire id =>
+      if a.pending id then { a with trees := updF a.trees id .absent, pending := updF a.pending id false } else a
+  | .close => { a with pending := fun _ => false, closed := true }
+
+def arun (a : Abs) : List AOp → Abs
+  | [] => a
+  | o :: os => arun (astep a o) os
+
+/-- what the abstract store sees of the concrete one: the generation numbers, the routines waiting for the lock
+and the per-id copies of the closing flag are gone -/
+def abs (s : St) : Abs :=
+  { trees := fun i => (s.at_ i).slot, pending := fun i => (s.at_ i).armed.isSome, closed := s.closed }
+
+/-- the closing flag is one flag (the model keeps a copy per id so that `step1` can read it) -/
+def Coherent (s : St) : Prop := ∀ i, (s.at_ i).closed = s.closed
+
+theorem coherent_init : Coherent {} := fun _ => rfl
+
+theorem step1_closed (t : St1) (o : Op1) (h : o ≠ .close) : (step1 t o).closed = t.closed := by
+  cases o with
+  | close => exact absurd rfl h
+  | register => simp only [step1]; split <;> rfl
+  | unregister => simp only [step1]; split <;> rfl
+  | refresh => rfl
+  | set c => rfl
+  | remove =>
+    simp only [step1]
+    split
+    · rfl
+    · split <;> rfl
+  | timer =>
+    simp only [step1]
+    split
+    · split <;> rfl
+    · rfl
+  | reap g =>
+    simp only [step1]
+    split
+    · split <;> rfl
+    · rfl
+
+theorem coherent_step (s : St) (o : Op) (h : Coherent s) : Coherent (step s o) := by
+  intro i
+  cases o with
+  | close => simp [step, step1]
+  | on j o' =>
+    by_cases hc : o' = .close
+    · subst hc; simpa [step] using h i
+    · have e : (step s (.on j o')).closed = s.closed := by cases o' <;> rfl
+      rw [e, at_step]
+      by_cases hj : j = i
+      · have : restrict i (.on j o') = some o' := by simp [restrict, hj, hc]
+        rw [this]; simp only []
+        rw [step1_closed _ _ hc]; exact h i
+      · have : restrict i (.on j o') = none := by simp [restrict, hj]
+        rw [this]; exact h i
+
+/-- the abstract operation a concrete one amounts to, given the state it is applied to: the timer firing and a
+routine that finds its removal cancelled or replaced are invisible; a routine completes the removal exactly
+when its timer fired and its generation is still the scheduled one -/
+def aop (s : St) : Op → AOp
+  | .close => .close
+  | .on id o => match o with
+    | .register => .register id
+    | .unregister => .unregister id
+    | .refresh => .refresh id
+    | .set c => .set id c
+    | .remove => .remove id
+    | .timer => .skip
+    | .reap g => if g ∈ (s.at_ id).firing ∧ (s.at_ id).armed = some g then .expire id else .skip
+    | .close => .skip
+
+private theorem abs_ext {a b : Abs} (h1 : ∀ i, a.trees i = b.trees i) (h2 : ∀ i, a.pending i = b.pending i)
+    (h3 : a.closed = b.closed) : a = b := by
+  cases a; cases b
+  simp only [Abs.mk.injEq]
+  exact ⟨funext h1, funext h2, h3⟩
+
+/-- **the tree store is a map plus a set of pending removals**: every operation of the store model — on any id,
+including the two halves of an expiry and routines of removals that were cancelled or scheduled again
+meanwhile — is exactly one operation of the abstract store. -/
+theorem refines_map_and_pending (s : St) (o : Op) (h : Coherent s) :
+    abs (step s o) = astep (abs s) (aop s o) := by
+  cases o with
+  | close =>
+    apply abs_ext
+    · intro i; simp [abs, step, step1, aop, astep]
+    · intro i; simp [abs, step, step1, aop, astep]
+    · simp [abs, step, aop, astep]
+  | on id o' =>
+    have hcl : (step s (.on id o')).closed = s.closed := by cases o' <;> rfl
+    cases o' with
+    | close => simp [step, aop, astep]
+    | register =>
+      apply abs_ext
+      · intro i
+        by_cases e : i = id
+        · subst e; simp only [abs, step, upd, aop, astep, updF, if_pos, step1]
+          split <;> simp_all
+        · simp [abs, step, upd, aop, astep, updF, e]
+      · intro i
+        by_cases e : i = id
+        · subst e; simp only [abs, step, upd, aop, astep, if_pos, step1]
+          split <;> simp_all
+        · simp [abs, step, upd, aop, astep, e]
+      · simp [abs, step, aop, astep]
+    | unregister =>
+      apply abs_ext
+      · intro i
+        by_cases e : i = id
+        · subst e; simp only [abs, step, upd, aop, astep, updF, if_pos, step1]
+          split <;> simp_all
+        · simp [abs, step, upd, aop, astep, updF, e]
+      · intro i
+        by_cases e : i = id
+        · subst e; simp only [abs, step, upd, aop, astep, if_pos, step1]
+          split <;> simp_all
+        · simp [abs, step, upd, aop, astep, e]
+      · simp [abs, step, aop, astep]
+    | refresh =>
+      apply abs_ext
+      · intro i
+        by_cases e : i = id
+        · subst e; simp [abs, step, upd, aop, astep, step1]
+        · simp [abs, step, upd, aop, astep, e]
+      · intro i
+        by_cases e : i = id
+        · subst e; simp [abs, step, upd, aop, astep, updF, step1]
+        · simp [abs, step, upd, aop, astep, updF, e]
+      · simp [abs, step, aop, astep]
+    | set c =>
+      apply abs_ext
+      · intro i
+        by_cases e : i = id
+        · subst e; simp [abs, step, upd, aop, astep, updF, step1]
+        · simp [abs, step, upd, aop, astep, updF, e]
+      · intro i
+        by_cases e : i = id
+        · subst e; simp [abs, step, upd, aop, astep, updF, step1]
+        · simp [abs, step, upd, aop, astep, updF, e]
+      · simp [abs, step, aop, astep]
+    | remove =>
+      have hc := h id
+      by_cases hcl' : s.closed = true
+      · have : step1 (s.at_ id) .remove = s.at_ id := remove_closed _ (by rw [hc]; exact hcl')
+        apply abs_ext
+        · intro i
+          by_cases e : i = id
+          · subst e; simp [abs, step, upd, aop, astep, this, hcl']
+          · simp [abs, step, upd, aop, astep, e, hcl']
+        · intro i
+          by_cases e : i = id
+          · subst e; simp [abs, step, upd, aop, astep, this, hcl']
+          · simp [abs, step, upd, aop, astep, e, hcl']
+        · simp [abs, step, aop, astep, hcl']
+      · have hc' : (s.at_ id).closed = false := by rw [hc]; simpa using hcl'
+        have hcl'' : s.closed = false := by simpa using hcl'
+        apply abs_ext
+        · intro i
+          by_cases e : i = id
+          · subst e; simp only [abs, step, upd, aop, astep, if_pos, step1, hc', hcl'']
+            cases ha : (s.at_ i).armed <;> simp
+          · simp [abs, step, upd, aop, astep, e, hcl'']
+        · intro i
+          by_cases e : i = id
+          · subst e; simp only [abs, step, upd, aop, astep, updF, if_pos, step1, hc', hcl'']
+            cases ha : (s.at_ i).armed <;> simp [ha, updF]
+          · simp [abs, step, upd, aop, astep, updF, e, hcl'']
+        · simp [abs, step, aop, astep, hcl'']
+    | timer =>
+      apply abs_ext
+      · intro i
+        by_cases e : i = id
+        · subst e; simp only [abs, step, upd, aop, astep, if_pos, step1]
+          split
+          · split <;> rfl
+          · rfl
+        · simp [abs, step, upd, aop, astep, e]
+      · intro i
+        by_cases e : i = id
+        · subst e; simp only [abs, step, upd, aop, astep, if_pos, step1]
+          split
+          · split <;> simp_all
+          · rfl
+        · simp [abs, step, upd, aop, astep, e]
+      · simp [abs, step, aop, astep]
+    | reap g =>
+      by_cases hf : g ∈ (s.at_ id).firing
+      · by_cases ha : (s.at_ id).armed = some g
+        · apply abs_ext
+          · intro i
+            by_cases e : i = id
+            · subst e; simp [abs, step, upd, aop, astep, updF, step1, hf, ha]
+            · simp [abs, step, upd, aop, astep, updF, e, hf, ha]
+          · intro i
+            by_cases e : i = id
+            · subst e; simp [abs, step, upd, aop, astep, updF, step1, hf, ha]
+            · simp [abs, step, upd, aop, astep, updF, e, hf, ha]
+          · simp [abs, step, aop, astep, hf, ha]
+        · apply abs_ext
+          · intro i
+            by_cases e : i = id
+            · subst e; simp [abs, step, upd, aop, astep, step1, hf, ha]
+            · simp [abs, step, upd, aop, astep, e, hf, ha]
+          · intro i
+            by_cases e : i = id
+            · subst e; simp [abs, step, upd, aop, astep, step1, hf, ha]
+            · simp [abs, step, upd, aop, astep, e, hf, ha]
+          · simp [abs, step, aop, astep, hf, ha]
+      · apply abs_ext
+        · intro i
+          by_cases e : i = id
+          · subst e; simp [abs, step, upd, aop, astep, step1, hf]
+          · simp [abs, step, upd, aop, astep, e, hf]
+        · intro i
+          by_cases e : i = id
+          · subst e; simp [abs, step, upd, aop, astep, step1, hf]
+          · simp [abs, step, upd, aop, astep, e, hf]
+        · simp [abs, step, aop, astep, hf]
+
+/-- the abstract trace of a concrete run -/
+def atrace (s : St) : List Op → List AOp
+  | [] => []
+  | o :: os => aop s o :: atrace (step s o) os
+
+/-- **refinement over runs**: from the empty store (or any coherent one), every run of the store model is the
+run of the abstract store over its trace -/
+theorem run_refines (s : St) (ops : List Op) (h : Coherent s) :
+    abs (run s ops) = arun (abs s) (atrace s ops) ∧ Coherent (run s ops) := by
+  induction ops generalizing s with
+  | nil => exact ⟨rfl, h⟩
+  | cons o os ih =>
+    simp only [run, atrace, arun]
+    rw [← refines_map_and_pending s o h]
+    exact ih _ (coherent_step s o h)
+
+/-- in the abstract store a tree goes away only by the expiry of a removal that is pending — never by a
+registration, a withdrawal, a refresh, a `Set` of another id, a removal being scheduled, or `Close` -/
+theorem abs_tree_leaves_only_by_expire (a : Abs) (o : AOp) (id c : Nat)
+    (h : a.trees id = .present c) (h' : (astep a o).trees id ≠ .present c) :
+    (o = .expire id ∧ a.pending id = true) ∨ (∃ c', c' ≠ c ∧ o = .set id c') := by
+  cases o with
+  | skip => exact absurd h h'
+  | close => exact absurd h h'
+  | refresh j => exact absurd h h'
+  | remove j =>
+    simp only [astep] at h'
+    split at h' <;> exact absurd h h'
+  | register j =>
+    simp only [astep, updF] at h'
+    by_cases e : id = j
+    · subst e; simp [h] at h'
+    · simp [e] at h'; exact absurd h h'
+  | unregister j =>
+    simp only [astep, updF] at h'
+    by_cases e : id = j
+    · subst e; simp [h] at h'
+    · simp [e] at h'; exact absurd h h'
+  | set j c' =>
+    simp only [astep, updF] at h'
+    by_cases e : id = j
+    · subst e
+      by_cases ec : c' = c
+      · subst ec; simp at h'
+      · exact .inr ⟨c', ec, rfl⟩
+    · simp [e] at h'; exact absurd h h'
+  | expire j =>
+    simp only [astep] at h'
+    by_cases hp : a.pending j = true
+    · simp only [hp, if_true, updF] at h'
+      by_cases e : id = j
+      · subst e; exact .inl ⟨rfl, hp⟩
+      · simp [e] at h'; exact absurd h h'
+    · simp [hp] at h'; exact absurd h h'
+
+/-- **liveness at quiescence**: when no removal is pending, no timer firing and no removal routine — however
+stale — changes the abstract store: the trees that are stored stay stored until the overlay schedules a
+removal. -/
+theorem quiescent_store_is_stable (s : St) (id g : Nat) (hq : (s.at_ id).armed = none) :
+    aop s (.on id .timer) = .skip ∧ aop s (.on id (.reap g)) = .skip := by
+  simp [aop, hq]
+
+/-- and the other direction: a pending removal whose timer fired is completed by its own routine, as the
+abstract `expire` -/
+theorem pending_removal_expires (s : St) (id g : Nat) (ha : (s.at_ id).armed = some g) (hf : g ∉ (s.at_ id).firing) :
+    aop (step s (.on id .timer)) (.on id (.reap g)) = .expire id := by
+  have : (step s (.on id .timer)).at_ id = step1 (s.at_ id) .timer := by simp [step, upd]
+  simp [aop, this, step1, ha, hf]
+
+/-- non-vacuity: set, remove, timer, a refresh and a new removal inside the fired window, the stale routine, then
+the new removal's own expiry — the abstract trace is `set, remove, skip, refresh, remove, skip, skip, expire` -/
+example : atrace {} [.on 2 (.set 7), .on 2 .remove, .on 2 .timer, .on 2 .refresh, .on 2 .remove, .on 2 (.reap 0),
+      .on 2 .timer, .on 2 (.reap 1)]
+    = [.set 2 7, .remove 2, .skip, .refresh 2, .remove 2, .skip, .skip, .expire 2] := by decide
+
+/-- the same read on the store model itself: the tree stored under an id is replaced or removed only by a `Set` of
+that id or by the removal routine of that id whose generation is the scheduled one and whose timer has fired -/
+theorem store_tree_leaves_only_by_expire (s : St) (o : Op) (h : Coherent s) (id c : Nat)
+    (hp : (s.at_ id).slot = .present c) (hn : ((step s o).at_ id).slot ≠ .present c) :
+    (aop s o = .expire id ∧ (s.at_ id).armed.isSome = true) ∨ (∃ c', c' ≠ c ∧ aop s o = .set id c') := by
+  have r := refines_map_and_pending s o h
+  exact abs_tree_leaves_only_by_expire (abs s) (aop s o) id c hp (by rw [← r]; exact hn)
+
 end Store
 
 /-! ### the code regions the model stands for
